@@ -40,10 +40,10 @@ var (
 
 // Errors
 var (
-	overflowError      = ExceptionNewf(OverflowError, "Python int too large to convert to int64")
-	overflowErrorGo    = ExceptionNewf(OverflowError, "Python int too large to convert to a go int")
-	overflowErrorFloat = ExceptionNewf(OverflowError, "long int too large to convert to float")
-	expectingBigInt    = ExceptionNewf(TypeError, "a big int is required")
+	overflowError      = ExceptionTemplatef(OverflowError, "Python int too large to convert to int64")
+	overflowErrorGo    = ExceptionTemplatef(OverflowError, "Python int too large to convert to a go int")
+	overflowErrorFloat = ExceptionTemplatef(OverflowError, "long int too large to convert to float")
+	expectingBigInt    = ExceptionTemplatef(TypeError, "a big int is required")
 )
 
 // Checks that obj is exactly a BigInt and returns an error if not
